@@ -10,41 +10,76 @@ from harness.suites import fe_compile
 
 
 MANIFEST = dict(
-    text='Two techniques, labelled. (PROVED) Lean 4 theorems over a model of the ordering algorithms of stone/ir/api.py and '
-         'stone/ir/data_types.py - `linearize_data_types` / `linearize_aliases` (depth-first with a seen set), '
-         '`Api.normalize` / `ApiNamespace.normalize`, `Struct.all_fields` / `all_required_fields` / `all_optional_fields`, '
-         '`Union.all_fields`: a linearization is a permutation of the namespace`s list and puts every same-namespace parent '
-         'before its child and every alias that IS the target of another alias before it (nothing is proved - and a Lean '
-         'witness shows nothing holds - for an alias mentioned inside List / Map / Nullable), `normalize` leaves namespaces, routes (name, then version), data '
-         'types and aliases sorted, `all_fields` is the required fields of the ancestors-then-own followed by the optional '
-         'ones. The model is tied to the code by differential runs of the REAL functions against the compiled model (suite '
-         'graph.linearize / graph.normalize / graph.allfields, also on shuffled lists). (TESTED, not proved) That the Api '
-         'handed to backends contains exactly what was declared - names, member order, type expressions and arguments, '
-         'nullability, defaults, docs, versions, deprecations, attributes, annotations, plus only the documented implicit '
-         'members (`other` of open unions, schema defaults of unspecified route attributes, one example per void tag) - is '
-         'decided by differential testing against a second implementation: harness/expected.py computes an independent '
-         'reference image from the generating model (never from stone), harness/apisig.py dumps the real Api, and the two '
-         'are compared field by field for every generated model under the reference layout, a random layout and with the '
-         'namespace doc spread over the files. Closure (every reachable type fully defined and THE object registered under '
-         'its name), acyclic inheritance and aliasing (through List / Map / Nullable too), the all_fields listings and the '
-         'alphabetical / parent-first / alias-target-first orders are evaluated as invariants on the real objects of every '
-         'accepted Api: generated models, hand-written seeds and the accepted outputs of the C03 text mutators.',
-    note='Trusted: Lean kernel, the correspondence harness, harness/specgen.py (model -> text renderer: what it never '
-         'renders is never compared; legality of the renderings is C01`s statement), harness/apisig.py (what it does not '
-         'dump is not compared), harness/expected.py (the reference reading; written from docs/lang_ref.rst and the '
-         'property text). No Lean model of the IR generator exists: compile_eq_denote / api_closed / api_acyclic of DESIGN.md '
-         'section 5 are NOT proved, they are tested. Not judged: the wording of the warnings injected into docs of Deprecated / '
-         'Preview / Omitted members (the text `None` is injected for undocumented members), example values and texts (C10), '
-         'the order of annotation types and of Struct.subtypes, recursive_custom_annotations, key order of route.attrs and '
-         'of CustomAnnotation.kwargs, int-vs-float kind of annotation arguments and attribute values, the text / bytes / '
-         'datetime representation of Bytes and Timestamp attribute values, whether a tag reference names the union or the '
-         'alias the member was declared with, imported-namespace views other than `must_have_imported_data_type`.',
-    technique='Lean 4 proof + differential correspondence (ordering algorithms); differential testing against an independent '
-              'reference implementation + invariant checking on the real compiler (faithfulness, closure, acyclicity)',
+    text='Three techniques, labelled. (PROVED, ordering) Lean 4 theorems over a model of the ordering algorithms of '
+         'stone/ir/api.py and stone/ir/data_types.py - `linearize_data_types` / `linearize_aliases` (depth-first with a seen '
+         'set), `Api.normalize` / `ApiNamespace.normalize`, `Struct.all_fields` / `all_required_fields` / '
+         '`all_optional_fields`, `Union.all_fields`: a linearization is a permutation of the namespace`s list and puts every '
+         'same-namespace parent before its child and every alias that IS the target of another alias before it (nothing is '
+         'proved - and a Lean witness shows nothing holds - for an alias mentioned inside List / Map / Nullable), `normalize` '
+         'leaves namespaces, routes (name, then version), data types and aliases sorted, `all_fields` is the required fields '
+         'of the ancestors-then-own followed by the optional ones. Tied to the code by differential runs of the REAL '
+         'functions against the compiled model (graph.linearize / graph.normalize / graph.allfields). '
+         '(PROVED, the type graph) Lean 4 theorems (Props/C02Compile.lean) over `compile`, a model of the core of '
+         'stone/frontend/ir_generator.py that follows `generate_IR` pass by pass - registration with '
+         '`_check_canonical_name_available`, `_add_imports_to_env`, `_populate_type_attributes` (aliases, then the '
+         'depth-first on-demand population of parents with `_resolution_in_progress`, `_resolve_type` / `_resolve_args` / '
+         '`_instantiate_data_type`, `UserDefined.set_attributes`, `Alias.set_attributes`, the implicit `other`), the type '
+         'tests of `_populate_field_defaults`, `_populate_enumerated_subtypes` / `set_enumerated_subtypes`, the three types '
+         'and `deprecated by` of routes - with one explicit error kind per `InvalidSpec` site. For every input on which '
+         'the model succeeds: `compile_eq_denote` (the Api equals `denote`, a specification-level reading of the '
+         'declarations written from docs/lang_ref.rst that knows nothing of passes, forward references or file order), '
+         '`fields_faithful` (namespace by namespace, type by type, member by member in declaration order: exactly the '
+         'declared members with the type their declared expression denotes, plus only the implicit `other` of unions '
+         'declared open; aliases likewise), `api_closed` (every (namespace, name) mentioned by a member / alias / route '
+         'type through List / Map / Nullable, by a parent link or an enumerated-subtype link is a data type resp. alias '
+         'the Api holds in that namespace), `api_acyclic` (no type is its own ancestor; no alias is reached from its own '
+         'target through aliases / List / Map / Nullable). The model is tied to the code by suite comp.compile: spec texts '
+         '(generated models, one-violation injections of harness/inject.py, one hand-written seed per modelled error site, '
+         'text mutants) are parsed by the REAL parser, the partial ASTs - what IRGenerator is constructed with - are '
+         'reduced to the model`s input and compiled by the model; the same texts go through the real specs_to_ir; accepted: '
+         'the two Apis (types, parents, members with full type expressions and arguments, catch-all, aliases, routes, '
+         'enumerated subtypes) must be equal; refused: the kind of the real InvalidSpec (message-template table) must be '
+         'the model`s, when the real message belongs to a modelled site. The hypothesis of the theorems (`compile = ok`) '
+         'and their decidable conclusions (closed, = denote) are evaluated by the driver on every case. '
+         '(TESTED, not proved) Everything the compile model leaves out - docs, defaults` values, annotations, examples, '
+         'patches, route attributes, versions` bookkeeping, the implicit members other than `other` - is decided by '
+         'differential testing against a second implementation: harness/expected.py computes an independent reference image '
+         'from the generating model (never from stone), harness/apisig.py dumps the real Api, and the two are compared '
+         'field by field for every generated model under the reference layout, a random layout and with the namespace doc '
+         'spread over the files. Closure (THE object registered under its name), acyclic inheritance and aliasing, the '
+         'all_fields listings and the orders are also evaluated as invariants on the real objects of every accepted Api '
+         '(generated models, seeds, accepted text mutants, every accepted case of comp.compile), and the declared members / '
+         'parents / alias targets of the parsed AST are compared with the real objects directly (judge_members).',
+    note='Trusted: Lean kernel, the correspondence harness, the REAL lexer / parser as the producer of the compile model`s '
+         'input (the model starts where IRGenerator starts; what the parser drops is caught by the reference-image '
+         'comparison, C11 / C03 are about the parser), harness/specgen.py (model -> text renderer), harness/apisig.py, '
+         'harness/expected.py (the reference reading). The compile model leaves out, and its theorems say nothing about: '
+         'docs and doc references, annotations applied to members (annotation definitions only occupy their names), '
+         'examples, patches (specs with a patch are skipped by comp.compile; generated without), route attributes and the '
+         'stone_cfg namespace (dropped from both dumps), the value of a default (C10), `Api.normalize` (covered by the '
+         'ordering theorems). Type references with mixed literal / type positional arguments or a type passed by keyword '
+         'are outside its input (counted, skipped). The arguments of the built-in types are C01`s model '
+         '(FeParams.instantiate), used as given by both `compile` and `denote`; `ns.List(T)` reads its arguments in `ns` in '
+         'both (the code re-binds the environment; the language reference is silent). The alias-cycle search is modelled '
+         'without Python`s visited set and the recursions run on explicit fuel (population: number of type declarations + '
+         '1); running out is the explicit error `outOfFuel`, never a verdict - that it does not occur is observed by the '
+         'correspondence suite (a model answer `outOfFuel` / `internal` is a disagreement), not proved. Error kinds are '
+         'compared, never messages; `Namespace .. is not imported` / `.. is not a namespace` are also raised by unmodelled '
+         'annotation sites and are not judged when the model disagrees. compile_error_iff (a decidable Legal) and order '
+         'independence of acceptance are not proved; order independence of the RESULT follows from compile_eq_denote only '
+         'up to the listing order. Not judged by the reference-image comparison: the wording of the warnings injected into '
+         'docs of Deprecated / Preview / Omitted members, example values and texts (C10), the order of annotation types and '
+         'of Struct.subtypes, recursive_custom_annotations, key order of route.attrs and of CustomAnnotation.kwargs, '
+         'int-vs-float kind of annotation arguments and attribute values, the text / bytes / datetime representation of '
+         'Bytes and Timestamp attribute values, whether a tag reference names the union or the alias the member was '
+         'declared with, imported-namespace views other than `must_have_imported_data_type`.',
+    technique='Lean 4 proof + differential correspondence (ordering algorithms; the IR generator`s type graph: faithfulness, '
+              'closure, acyclicity); differential testing against an independent reference implementation + invariant '
+              'checking on the real compiler (everything else)',
     design='5 C02, 10.4')
 
-RULE = ('proof: every theorem of Props/C02.lean accepted with allowed axioms and 0 disagreements in graph.linearize / '
-        'graph.normalize / graph.allfields. testing: for every compiled rendering the apisig signature equals the reference '
+RULE = ('proof: every theorem of Props/C02.lean and Props/C02Compile.lean accepted with allowed axioms and 0 disagreements in '
+        'graph.linearize / graph.normalize / graph.allfields / comp.compile / comp.theorem_instances. testing: for every compiled rendering the apisig signature equals the reference '
         'image of its model on every key the image fixes (first differing path = failing input); on every accepted Api '
         '(generated, seeds, accepted text mutants) the closure, acyclicity, all_fields and ordering invariants hold.')
 
@@ -137,8 +172,9 @@ def run(ck):
         'gaps of the generator (see harness/specgen.py): identifiers with `-`, `= null` defaults, nested definitions deeper '
         'than one level, import cycles, `@other_ns.Custom` annotations, two positional custom-annotation arguments',
     ])
-    ck.note('field-by-field faithfulness, closure and acyclicity are DIFFERENTIAL / INVARIANT TESTING of the real compiler '
-            'against harness/expected.py, not a proof; only the ordering algorithms are covered by Lean theorems')
+    ck.note('the type graph (members, parents, aliases, routes` types, enumerated subtypes: faithfulness, closure, acyclicity) is '
+            'PROVED for the compile model and tied to the code by comp.compile; docs, defaults, annotations, examples, '
+            'patches and route attributes are DIFFERENTIAL / INVARIANT TESTING against harness/expected.py, not a proof')
     nj = {k[len('faithful.not_judged.'):]: v for k, v in ck.stats.items() if k.startswith('faithful.not_judged.')}
     if nj:
         ck.note('observed and not judged (renderings affected): %s' % json.dumps(nj, sort_keys=True))
